@@ -1,10 +1,83 @@
 (* C40 -- Finished evaluations leave no file descriptors or goroutines behind.
    Property theorems only; every proof is [exact <lemma>]. *)
-From verif Require Import lib.Base model.C42_Ports model.C40 proofs.C40_proofs.
+From verif Require Import lib.Base model.C42_Ports model.C40 proofs.C42_proofs proofs.C40_proofs
+  proofs.C40_ledger proofs.C40_form proofs.C40_balance.
 Open Scope nat_scope.
+
+(* The ledger is balanced.  For every program of the modelled constructs (forms
+   with any redirection list, pipelines of any length with redirections on every
+   stage, output captures, each over the inputs, peach, run-parallel, try, failing
+   commands and verif:cancel at every position, nested to any depth), every
+   initial port table with at least stdin and stdout, every state, and every exit
+   path -- normal, exception, interruption (a cancelled context makes every later
+   pipeline return the interrupt exception) --: when evaluation returns, every
+   handle (open file description, pipe end) has the open/closed status it had at
+   entry or did not exist at entry and is closed, so the number of open
+   descriptors is unchanged, and as many goroutines have been joined as were
+   spawned.  (Crash and out-of-fuel results are not exit paths of a finished
+   evaluation.) *)
+Theorem C40_ledger_balanced :
+  forall fuel T body s s',
+    2 <= length T ->
+    (run_prog fuel T body s = Ok s' \/ exists k, run_prog fuel T body s = Exc k s') ->
+    live_fds s' = live_fds s /\ live_gor s' = live_gor s
+    /\ forall h, handle_open s' h = handle_open s h.
+Proof. exact ledger_balanced. Qed.
+Print Assumptions C40_ledger_balanced.
+
+(* one lemma per construct: a form with any redirections and any pre-owned ports
+   (this is what a pipeline stage is) closes exactly the handles it owned at
+   entry, on every exit path, and every file it opened *)
+Theorem C40_form_closes_what_it_owns :
+  forall runf, (forall T c s, 2 <= length T -> okx (ext s) (runf T c s)) ->
+  forall T F0 pin rs body s,
+    2 <= length T ->
+    (forall h, heldP T F0 h -> closable h = true) ->
+    (forall d, fo_file (nth d F0 fop0) = true -> exists p, tget T d = Some p) ->
+    okx (closes (heldb T F0) s) (form_of runf T F0 pin rs body s).
+Proof. exact form_closes. Qed.
+Print Assumptions C40_form_closes_what_it_owns.
+
+(* a pipeline closes every pipe end it created, whichever stages fail or fail to
+   start (a stage whose redirections throw still gets its epilogue) *)
+Theorem C40_pipeline_closes_its_pipes :
+  forall runf, (forall T c s, 2 <= length T -> okx (ext s) (runf T c s)) ->
+  forall T, 2 <= length T ->
+  forall sts acc s, okx (closes (cin None) s) (stages_of runf T sts None acc s).
+Proof.
+  exact (fun runf HP T HT sts acc s => stages_closes runf HP T HT sts None acc s (or_intror eq_refl)).
+Qed.
+Print Assumptions C40_pipeline_closes_its_pipes.
+
+(* output capture: the pipe and both goroutines are gone afterwards, also when
+   the captured code throws *)
+Theorem C40_capture_balanced :
+  forall runf, (forall T c s, 2 <= length T -> okx (ext s) (runf T c s)) ->
+  forall T body s, 2 <= length T -> okx (ext s) (capture_of runf T body s).
+Proof. exact capture_ext. Qed.
+Print Assumptions C40_capture_balanced.
+
+(* the census: equal handle status means equal counts *)
+Theorem C40_ext_means_same_census :
+  forall s s', ext s s' -> live_fds s' = live_fds s /\ live_gor s' = live_gor s.
+Proof. exact ext_live. Qed.
+Print Assumptions C40_ext_means_same_census.
+
+(* the one unbalanced path of the code is outside the model and the property's
+   quantifier: pipelineOp.exec returns at once when os.Pipe fails, leaving the
+   stages already started to finish by themselves (environmental failure). *)
 
 (* the oracle evaluated on the runner's census is sound: no growth of the number
    of open descriptors or of goroutines over all repetitions, and no crash *)
 Theorem C40_oracle_sound : forall c, check_C40 c = true -> Spec_C40 c.
 Proof. exact check_C40_sound. Qed.
 Print Assumptions C40_oracle_sound.
+
+(* non-vacuity: a pipeline with a failing middle stage and a redirected form
+   runs to an exception in the model, with the ledger balanced *)
+Example C40_example :
+  observe40 [Some [120%N; 10%N]]
+    [SPipe [([], [SEcho [97%N]]); ([], [SFail]); ([], [SNop])];
+     SForm [mkRedir None MWrite (SFile 1)] [SCapture [SEcho [98%N]; SFail]]]
+  = Some (mkMobs OExc 0 0 4 2).
+Proof. vm_compute. reflexivity. Qed.
